@@ -392,7 +392,8 @@ fn norm<F: Scalar>(p: &Params) {
     let mut x = matrix::<F>("x", n, pc, b);
     // scale=k: entries are integers times 2^k (exact): rows of very small / very large norm
     let scale = p.get("scale", 0) as i32;
-    let unit = F::lit(2.0f64.powi(scale));
+    let unit = F::lit((scale as f64).exp2());
+    let x_int = x.clone();
     if scale != 0 {
         x.mapv_inplace(|v| v * unit);
     }
@@ -446,16 +447,20 @@ fn norm<F: Scalar>(p: &Params) {
         let xr = x.row(i);
         let nn: F = match kind {
             1 => xr.iter().map(|v| fabs(*v)).sum(),
-            2 => NF::sqrt(xr.iter().map(|&v| v * v).sum::<F>()),
+            // (through the integer multiples of 2^scale, so that the oracle itself neither under- nor overflows)
+            2 => NF::sqrt(x_int.row(i).iter().map(|&v| v * v).sum::<F>()) * unit,
             _ => xr.iter().fold(zero, |f, &v| NF::max(fabs(v), f)),
         };
-        let t_x = F::lit(b as f64 * (2.0f64).powi(-30 + scale));
+        let t_x = F::lit(b as f64 * ((-30 + scale) as f64).exp2());
         for j in 0..pc {
             cg(2, "norm: output * norm of the input row == input", close(r[j] * nn, x[(i, j)] + mu(2), t_x));
         }
         let textbook = match kind {
             1 => nn.s_eq(sum(xr.iter().map(|&v| fabs(v))) + mu(3)),
-            2 => zero.s_le(nn).and(close(nn * nn, sum(xr.iter().map(|&v| v * v)) + mu(3), t_x * F::lit(b as f64 * pc as f64))),
+            2 => {
+                let ni = NF::sqrt(x_int.row(i).iter().map(|&v| v * v).sum::<F>());
+                zero.s_le(ni).and(close(ni * ni, sum(x_int.row(i).iter().map(|&v| v * v)) + mu(3), F::lit(b as f64 * b as f64 * pc as f64 * (2.0f64).powi(-30))))
+            }
             _ => nn.s_eq(fold(xr.iter().map(|&v| fabs(v)), NF::max) + mu(3)),
         };
         cg(3, "norm: the auxiliary value is the l1 / l2 / max norm of the input row", textbook);
